@@ -75,10 +75,9 @@ class atom(boolean.AndRestriction):
         "repo_id",
     )
 
+    # <, <=, >, >= come from __cmp__; __eq__/__ne__ are defined below so
+    # that they agree with that ordering.
     klass.inject_richcmp_methods_from_cmp(locals())
-    # hack; combine these 2 metaclasses at some point...
-    locals().pop("__eq__", None)
-    locals().pop("__ne__", None)
 
     # overrided in child class if it's supported
     evaluate_depset = None
@@ -428,6 +427,16 @@ class atom(boolean.AndRestriction):
 
     def __getitem__(self, index):
         return self.restrictions[index]
+
+    def __eq__(self, other):
+        if self is other:
+            return True
+        if not isinstance(other, atom):
+            return False
+        return self.__cmp__(other) == 0
+
+    def __ne__(self, other):
+        return not self.__eq__(other)
 
     def __cmp__(self, other):
         if not isinstance(other, atom):
